@@ -351,47 +351,51 @@ pub fn gdoc() -> impl Strategy<Value = GDoc> {
         maybe_section(prop::collection::vec(gassign(), 0..4)),
         prop::collection::vec((any::<u16>(), any::<u16>(), any::<u16>()), 0..4),
     )
-        .prop_map(|(mode, default_access, rules_present, privileges, mut roles, identities, mut assignments, chains)| {
-            // wire up complete chains privilege -> role -> assignment -> identity so that grants are frequent
-            if let (Some(ps), Some(rs), Some(is), Some(asg)) = (&privileges, &mut roles, &identities, &mut assignments) {
-                if !ps.is_empty() && !rs.is_empty() && !is.is_empty() {
-                    for (a, b, c) in chains {
-                        let p = &ps[crate::runner::pick(a, ps.len())];
-                        let ri = crate::runner::pick(b, rs.len());
-                        let i = &is[crate::runner::pick(c, is.len())];
-                        if !rs[ri].privileges.contains(&p.name) {
-                            rs[ri].privileges.push(p.name.clone());
+        .prop_map(assemble_doc)
+}
+
+pub type DocParts = (String, String, bool, Option<Vec<GPriv>>, Option<Vec<GRole>>, Option<Vec<GIdent>>, Option<Vec<GAssign>>, Vec<(u16, u16, u16)>);
+
+pub fn assemble_doc((mode, default_access, rules_present, privileges, mut roles, identities, mut assignments, chains): DocParts) -> GDoc {
+        // wire up complete chains privilege -> role -> assignment -> identity so that grants are frequent
+        if let (Some(ps), Some(rs), Some(is), Some(asg)) = (&privileges, &mut roles, &identities, &mut assignments) {
+            if !ps.is_empty() && !rs.is_empty() && !is.is_empty() {
+                for (a, b, c) in chains {
+                    let p = &ps[crate::runner::pick(a, ps.len())];
+                    let ri = crate::runner::pick(b, rs.len());
+                    let i = &is[crate::runner::pick(c, is.len())];
+                    if !rs[ri].privileges.contains(&p.name) {
+                        rs[ri].privileges.push(p.name.clone());
+                    }
+                    let rname = rs[ri].name.clone();
+                    // mostly a NEW assignment (several assignments may reach one privilege, through the same
+                    // role or through different roles); sometimes merged into an existing one
+                    let merge = (a ^ b ^ c) % 4 == 0;
+                    match asg.iter_mut().find(|x| x.role == rname && merge) {
+                        Some(x) => {
+                            if !x.identities.contains(&i.name) {
+                                x.identities.push(i.name.clone());
+                            }
                         }
-                        let rname = rs[ri].name.clone();
-                        // mostly a NEW assignment (several assignments may reach one privilege, through the same
-                        // role or through different roles); sometimes merged into an existing one
-                        let merge = (a ^ b ^ c) % 4 == 0;
-                        match asg.iter_mut().find(|x| x.role == rname && merge) {
-                            Some(x) => {
-                                if !x.identities.contains(&i.name) {
-                                    x.identities.push(i.name.clone());
-                                }
-                            }
-                            None => {
-                                let at = crate::runner::pick(a.rotate_left(3), asg.len() + 1);
-                                asg.insert(at, GAssign { role: rname, identities: vec![i.name.clone()] })
-                            }
+                        None => {
+                            let at = crate::runner::pick(a.rotate_left(3), asg.len() + 1);
+                            asg.insert(at, GAssign { role: rname, identities: vec![i.name.clone()] })
                         }
                     }
                 }
             }
-            GDoc {
-                mode,
-                default_access,
-                id: String::new(),
-                rules_present,
-                privileges,
-                roles,
-                identities,
-                assignments,
-            }
-            .with_content_id()
-        })
+        }
+        GDoc {
+            mode,
+            default_access,
+            id: String::new(),
+            rules_present,
+            privileges,
+            roles,
+            identities,
+            assignments,
+        }
+        .with_content_id()
 }
 
 pub fn gclaims() -> impl Strategy<Value = GClaims> {
@@ -571,4 +575,57 @@ impl GReq {
         out.extend_from_slice(&body_wire);
         out
     }
+}
+
+
+// ------------------------------------------------------------------------------------------------
+// word-addressed construction (coverage-guided fuzzing, see `words`): every component of a document
+// is drawn from the SAME strategy as above, selected by one 64-bit word of the fuzz input, so that
+// libFuzzer's byte mutations re-draw single components and splice components between corpus entries.
+
+fn section_from_words<T>(w: &mut crate::words::Words, max: u64, mut elem: impl FnMut(u64) -> T, pool: &'static [&'static str], set_name: fn(&mut T, String)) -> Option<Vec<T>> {
+    let h = w.next();
+    if h % 25 == 0 {
+        return None;
+    }
+    let n = (h >> 8) % (max + 1);
+    Some(
+        (0..n as usize)
+            .map(|i| {
+                let word = w.next();
+                let mut t = elem(word);
+                if (word >> 58) != 0 {
+                    set_name(&mut t, pool[i % pool.len()].to_string());
+                }
+                t
+            })
+            .collect(),
+    )
+}
+
+pub fn gdoc_from_words(w: &mut crate::words::Words) -> GDoc {
+    use crate::words::draw;
+    let h = w.next();
+    let mode = draw(&mode_text(), h);
+    let default_access = draw(&default_access_text(), h.rotate_left(17));
+    let rules_present = (h >> 40) % 20 != 0;
+    let privileges = section_from_words(w, 4, |x| draw(&gpriv(), x), PRIV_NAMES, |p, n| p.name = n);
+    let roles = section_from_words(w, 3, |x| draw(&grole(), x), ROLE_NAMES, |r, n| r.name = n);
+    let identities = section_from_words(w, 4, |x| draw(&gident(), x), IDENT_NAMES, |i, n| i.name = n);
+    let assignments = {
+        let h = w.next();
+        if h % 25 == 0 {
+            None
+        } else {
+            Some((0..((h >> 8) % 4) as usize).map(|_| draw(&gassign(), w.next())).collect())
+        }
+    };
+    let c = w.next();
+    let chains: Vec<(u16, u16, u16)> = (0..(c % 4) as usize)
+        .map(|_| {
+            let x = w.next();
+            (x as u16, (x >> 16) as u16, (x >> 32) as u16)
+        })
+        .collect();
+    assemble_doc((mode, default_access, rules_present, privileges, roles, identities, assignments, chains))
 }
